@@ -198,9 +198,21 @@ def run(ctx):
 
     _finiteness(ctx, prog, six, 6)
     _finiteness(ctx, prog, five, 5)
-    # J6 sources of the 5-DOF solver
+    # J6 sources of the 5-DOF solver (direct call sites, and call sites of the entry points that forward their j6 parameter)
+    j6_sinks = {five.path: 2}
+    for m in ('inverse_5dof',):
+        eb = methods[m]
+        for bi, t in eb.calls():
+            if t['callee'].get('resolved') == five.path and util.is_param(eb.op_term(t['args'][2], (bi, None)), 3):
+                j6_sinks[eb.path] = 2
     for b in prog.bodies.values():
         for bi, t in b.calls():
+            if t['callee'].get('resolved') in j6_sinks and t['callee'].get('resolved') != five.path:
+                ctx.fn(b)
+                a = b.op_term(t['args'][2], (bi, None))
+                nan = mir.contains(a, lambda x: x[0] == 'const' and isinstance(x[2], float) and x[2] != x[2])
+                ctx.check(not nan, 'R01.4', 'j6@%s->%s' % (b.path.split('::')[-1], t['callee']['resolved'].split('::')[-1]), b.where(bi), b.path,
+                          'a NaN constant is passed as J6 of the 5-DOF solver: every candidate then carries a non-finite joint value', found=show(a, maxdepth=3), detail=show(a, maxdepth=3))
             if t['callee'].get('resolved') == five.path:
                 ctx.fn(b)
                 a = b.op_term(t['args'][2], (bi, None))
